@@ -1245,3 +1245,84 @@ pub fn verif_c05_variant_offsets(
             .collect(),
     )
 }
+
+
+/// Verification hooks (C02): the lowerer's own answers about a type —
+/// `layout_of`, `is_reference_type`, `needs_clone`, `needs_drop`,
+/// `lower_type`, the byte offset `location` computes for a projection path —
+/// and the clone / drop / eq functions it generates, without lowering a
+/// program.
+#[cfg(feature = "verif-hooks")]
+pub mod verif_c02 {
+    use super::*;
+
+    pub use super::clones::verif_generate_clone as generate_clone;
+    pub use super::drops::verif_generate_drop as generate_drop;
+    pub use super::eq::verif_generate_eq as generate_eq;
+
+    fn with<R>(
+        ctx: &mut LowerCtx<'_>,
+        f: impl FnOnce(&mut Lowerer<'_, '_>) -> R,
+    ) -> R {
+        let scope = ctx.type_info.scope_graph.root();
+        let label = ctx.label_store.new_label("verif_c02".into());
+        let mut lowerer = Lowerer {
+            ctx,
+            tmp_idx: 0,
+            force_reference_return: false,
+            function_scope: scope,
+            return_type: TyRef::UNIT,
+            blocks: vec![Block {
+                label,
+                instructions: Vec::new(),
+            }],
+            variables: Vec::new(),
+        };
+        f(&mut lowerer)
+    }
+
+    pub fn layout_of(ctx: &mut LowerCtx<'_>, ty: TyRef) -> Option<(usize, usize)> {
+        with(ctx, |l| l.layout_of(ty).map(|x| (x.size(), x.align())))
+    }
+
+    pub fn is_reference_type(ctx: &mut LowerCtx<'_>, ty: TyRef) -> Option<bool> {
+        with(ctx, |l| l.is_reference_type(ty))
+    }
+
+    pub fn needs_clone(ctx: &mut LowerCtx<'_>, ty: TyRef) -> bool {
+        with(ctx, |l| l.needs_clone(ty))
+    }
+
+    pub fn needs_drop(ctx: &mut LowerCtx<'_>, ty: TyRef) -> bool {
+        with(ctx, |l| l.needs_drop(ty))
+    }
+
+    pub fn lower_type(ctx: &mut LowerCtx<'_>, ty: TyRef) -> Option<IrType> {
+        with(ctx, |l| l.lower_type(ty))
+    }
+
+    /// `Lowerer::location` of `var.projection` for a variable of type
+    /// `root_ty`: `None` = uninhabited, `Some(None)` = a plain variable,
+    /// `Some(Some(offset))` = pointer + byte offset.
+    pub fn location(
+        ctx: &mut LowerCtx<'_>,
+        root_ty: TyRef,
+        projection: Vec<mir::Projection>,
+        ty: TyRef,
+    ) -> Option<Option<usize>> {
+        with(ctx, |l| {
+            let place = mir::Place {
+                var: mir::Var {
+                    scope: l.function_scope,
+                    kind: mir::VarKind::Tmp(0),
+                },
+                root_ty,
+                projection,
+            };
+            l.location(place, ty).map(|loc| match loc {
+                Location::Var(_) => None,
+                Location::Pointer { offset, .. } => Some(offset),
+            })
+        })
+    }
+}
